@@ -41,20 +41,25 @@ func c09Scenarios(r *vmc.Result) []rtScenario {
 	patterns := []string{"a.com", "A.com", "*.a.com", "*.A.COM", "b.a.com", "*.b.a.com"}
 	keys := []string{"web", "Web", "we", "web2"}
 	thorough := r.Thorough()
-	pn := vmc.Pick(r, p1, p2)
 	scs := []rtScenario{
 		// every pattern of the pool from remote origins only (no unbounded counter): reaches every combination of stored patterns -- fixpoint
 		rtMkScenario("d-patterns", 0, p1, rtAlpha{Tbl: 'd', Keys: patterns, Peers: p1, Origins: vmc.Pick(r, o1, o2), Seqs: s1, Metrics: m1}),
 		// local and remote routes for the same patterns written in different cases
-		rtMkScenario("d-local", vmc.Pick(r, 4, 5), p1, rtAlpha{Tbl: 'd', Keys: []string{"a.com", "*.A.COM", "b.a.com"}, Peers: p1, Origins: o1, Seqs: s1, Metrics: m2,
+		rtMkScenario("d-local", vmc.Pick(r, 5, 6), p1, rtAlpha{Tbl: 'd', Keys: []string{"a.com", "*.A.COM", "b.a.com"}, Peers: p1, Origins: o1, Seqs: s1, Metrics: m2,
 			LocalKeys: []string{"A.com", "*.a.com"}, LocalMet: m2}),
 		// metric / sequence / origin interplay within one exact and one wildcard pattern written in two cases
-		rtMkScenario("d-metric", vmc.Pick(r, 4, 5), pn, rtAlpha{Tbl: 'd', Keys: []string{"a.com", "A.com", "*.a.com"}, Peers: pn, Origins: o2,
-			Seqs: s2, Metrics: vmc.Pick(r, m2, m3), LoopAdv: true}),
+		rtMkScenario("d-metric", vmc.Pick(r, 4, 5), p1, rtAlpha{Tbl: 'd', Keys: []string{"a.com", "A.com", "*.a.com"}, Peers: p1, Origins: o2,
+			Seqs: s2, Metrics: m3, LoopAdv: true}),
 		rtMkScenario("f-keys", 0, p1, rtAlpha{Tbl: 'f', Keys: vmc.Pick(r, keys[:3], keys), Peers: p1, Origins: o2, Seqs: s1, Metrics: m1}),
-		rtMkScenario("f-metric", vmc.Pick(r, 4, 5), pn, rtAlpha{Tbl: 'f', Keys: []string{"web", "Web"}, Peers: pn, Origins: o2,
-			Seqs: s2, Metrics: vmc.Pick(r, m2, m3), LoopAdv: true, LocalKeys: []string{"web"}, LocalMet: m2[1:]}),
-		rtMkScenario("a-metric", vmc.Pick(r, 4, 5), p2, rtAlpha{Tbl: 'a', Keys: o2, Peers: p2, Origins: o2, Seqs: s2, Metrics: vmc.Pick(r, m2, m3), LoopAdv: true, AgentAny: thorough}),
+		rtMkScenario("f-metric", vmc.Pick(r, 4, 5), p1, rtAlpha{Tbl: 'f', Keys: []string{"web", "Web"}, Peers: p1, Origins: o2,
+			Seqs: s2, Metrics: m3, LoopAdv: true, LocalKeys: []string{"web"}, LocalMet: m2[1:]}),
+		rtMkScenario("a-metric", vmc.Pick(r, 4, 5), p2, rtAlpha{Tbl: 'a', Keys: o2, Peers: p2, Origins: o2, Seqs: s2, Metrics: m3, LoopAdv: true, AgentAny: thorough}),
+	}
+	if thorough {
+		scs = append(scs,
+			rtMkScenario("d-metric-2peers", 4, p2, rtAlpha{Tbl: 'd', Keys: []string{"a.com", "A.com", "*.a.com"}, Peers: p2, Origins: o2, Seqs: s2, Metrics: m3, LoopAdv: true}),
+			rtMkScenario("f-metric-2peers", 4, p2, rtAlpha{Tbl: 'f', Keys: []string{"web", "Web"}, Peers: p2, Origins: o2, Seqs: s2, Metrics: m3, LoopAdv: true,
+				LocalKeys: []string{"web"}, LocalMet: m2[1:]}))
 	}
 	return scs
 }
